@@ -286,7 +286,7 @@ func buildCases(seed int64, thorough bool) []caseSpec {
 	// family "async": SIGKILL from the parent shortly after the n-th hook event, plot still running
 	nAsync, nRep := 48, 84
 	if thorough {
-		nAsync, nRep = 1100, 2000
+		nAsync, nRep = 1400, 2400
 	}
 	for i := 0; i < nAsync; i++ {
 		r := root.Derive("async", i)
